@@ -38,8 +38,9 @@ var errNodeAlreadyExists = errors.New("pid already exists")
 // pidNode represents a node in the PID tree.
 // Most fields are protected by the owning tree's mutex.
 // The pid field uses an atomic pointer because pidNode references may be
-// returned to callers outside the tree lock (e.g. via node()/nodeByName()),
-// and concurrent deleteNode() calls can set pid to nil.
+// returned to callers outside the tree lock (e.g. via node()/nodeByName()).
+// deleteNode() leaves pid in place (except for the root) so such callers never
+// observe nil.
 type pidNode struct {
 	pid         atomic.Pointer[PID] // PID associated with this node (atomic for safe lock-free reads).
 	parentNode  *pidNode            // Parent node; nil if root.
@@ -50,7 +51,7 @@ type pidNode struct {
 	descendants map[string]*pidNode // Direct children (key = child ID).
 }
 
-// value returns the PID stored in the node, or nil if cleared by deleteNode.
+// value returns the PID stored in the node (nil only for an unset root node).
 // Safe to call without holding the tree lock.
 func (n *pidNode) value() *PID {
 	return n.pid.Load()
@@ -421,7 +422,16 @@ func (x *tree) deleteNode(pid *PID) {
 			delete(x.names, n.name)
 		}
 		n.parentNode = nil
-		n.pid.Store(nil)
+		// The PID is deliberately left in the removed node: callers such as Kill,
+		// ActorOf or the death watch obtain the node under the read lock and
+		// dereference value() after releasing it. Clearing it here made those
+		// callers panic with a nil PID when they raced this deletion; keeping it
+		// linearizes their lookup before the deletion (they see the stopped PID).
+		// Only the root keeps the old behavior: root() reports a deleted root
+		// through the cleared PID, and the root is never looked up by name.
+		if n == x.rootNode {
+			n.pid.Store(nil)
+		}
 		x.counter.Add(-1)
 	}
 	verifhook.At("tree.mut", x, 6, 0)
